@@ -4975,6 +4975,13 @@ class ParseCtx:
             next_node = node
         return next_node
 
+# Verification hook (no-op unless the environment variable NMFU_VERIF is set and an observer is registered)
+_verif_observer = None
+
+def _verif_observe(phase, ctx):
+    if _verif_observer is not None and os.environ.get("NMFU_VERIF"):
+        _verif_observer(phase, ctx)
+
 class DfaCompileCtx:
     def __init__(self, parse_ctx: ParseCtx):
         self.state_object_spec = parse_ctx.state_object_spec
@@ -5161,9 +5168,11 @@ class DfaCompileCtx:
 
         self.dfa = self.ast.convert(defaultdict(lambda: self.generic_fail_state))
         self.dfa.add(self.generic_fail_state)
+        _verif_observe("post_convert", self)
 
         while self._optimize_remove_inaccessible() + self._optimize_simplify_transition_matches() + self._optimize_shortcircuit_fallthroughs():
             pass
+        _verif_observe("post_optimize", self)
 
         # verify correctness of DFA
         self._verify_fallthrough_loop()
